@@ -638,6 +638,13 @@ def lazy_purge_history(rng):
         for h in victims:
             g.hist.append((wg.ED, [h]))
             g.kill(h)
+        if rng.random() < 0.5:
+            # an entity built lazily with components and deleted again before the maintain that would attach them
+            g.hist.append((wg.LC, g.comps(2)))
+            doomed = g.nh
+            g.created(1)
+            g.hist.append((rng.choice([wg.D, wg.ED]), [doomed]))
+            g.kill(doomed)
         prog = []
         first_new = g.nh
         for _ in range(rng.randint(1, 3)):
@@ -655,13 +662,6 @@ def lazy_purge_history(rng):
             sid = rng.choice(g.regs)
             u, v = g.tok(sid)
             g.hist.append((LINS, [sid, rng.choice(g.live), u, v]))
-        if rng.random() < 0.5:
-            # an entity built lazily with components and deleted again before the maintain that would attach them
-            g.hist.append((wg.LC, g.comps(2)))
-            doomed = g.nh
-            g.created(1)
-            g.hist.append((rng.choice([wg.D, wg.ED]), [doomed]))
-            g.kill(doomed)
         g.hist.append((wg.M, []))
         for sid in g.regs:
             g.hist.append((MSK, [sid]))
